@@ -201,6 +201,29 @@ pub fn run(p: &[String]) -> Vec<String> {
             if b(&p[1]) { ws.move_range(&unhex(&p[6]), &dr, &dc); } else { ws.copy_range(&unhex(&p[6]), &dr, &dc); }
             vec![hex(&dump_cells(ws))]
         }
+        "book_fanout" => {
+            // op axis edited p n ca ra cb rb
+            let mut book = umya_spreadsheet::new_file_empty_worksheet();
+            book.new_sheet("A").unwrap();
+            book.new_sheet("B").unwrap();
+            book.get_sheet_by_name_mut("A").unwrap().get_cell_mut((u(&p[6]), u(&p[7]))).set_value_bool(true);
+            book.get_sheet_by_name_mut("B").unwrap().get_cell_mut((u(&p[8]), u(&p[9]))).set_value_bool(false);
+            let (op, axis, edited, pp, n) = (unhex(&p[1]), unhex(&p[2]), unhex(&p[3]), u(&p[4]), u(&p[5]));
+            match (op.as_str(), axis.as_str()) {
+                ("insert", "row") => book.insert_new_row(&edited, &pp, &n),
+                ("insert", "col") => book.insert_new_column_by_index(&edited, &pp, &n),
+                ("remove", "row") => book.remove_row(&edited, &pp, &n),
+                ("remove", "col") => book.remove_column_by_index(&edited, &pp, &n),
+                _ => panic!("bad op"),
+            }
+            let dump = |name: &str| -> String {
+                let ws = book.get_sheet_by_name(name).unwrap();
+                let mut v: Vec<String> = ws.get_cell_collection().iter().map(|c| c.get_coordinate().get_coordinate()).collect();
+                v.sort();
+                v.join(",")
+            };
+            vec![hex(&dump("A")), hex(&dump("B"))]
+        }
         // ---- C07 scalar
         "adj_insert" => vec![va::adjustment_insert_coordinate(&u(&p[1]), &u(&p[2]), &u(&p[3])).to_string()],
         "adj_remove" => vec![va::adjustment_remove_coordinate(&u(&p[1]), &u(&p[2]), &u(&p[3])).to_string()],
